@@ -649,7 +649,14 @@ def mutation_stream(run, drv, ask):
         cur = [(f"layer{i}", m) for i, m in enumerate(prog)]
         ops = []
         for _ in range(rng.randint(1, 3)):
-            if len(cur) > 1 and rng.random() < 0.45:
+            if container == "list" and rng.random() < 0.3:
+                # append / insert / extend (list-based sequences)
+                kind = rng.choice(["append", "insert", "extend"])
+                i = rng.randrange(len(cur) + 1) if kind == "insert" else len(cur)
+                ms = [rng.choice(donor) for _ in range(2 if kind == "extend" else 1)]
+                ops.append((kind, i, None, ms))
+                cur = cur[:i] + [(f"new{len(ops)}_{j}", mm) for j, mm in enumerate(ms)] + cur[i:]
+            elif len(cur) > 1 and rng.random() < 0.45:
                 i = rng.randrange(len(cur))
                 ops.append(("del", i, cur[i][0]))
                 cur = cur[:i] + cur[i + 1:]
@@ -667,7 +674,8 @@ def mutation_stream(run, drv, ask):
     for ci, (prog, container, ops, cur, lo, hi) in enumerate(cases):
         m_keys, m_slice = parse_sx(answers[2 * ci]), parse_sx(answers[2 * ci + 1])
         psx, csx = G.prog_sx(prog), G.prog_sx(cur)
-        desc = [psx, container, [(o[0], o[1]) + ((G.prog_sx([o[3]]),) if o[0] == "set" else ()) for o in ops]]
+        desc = [psx, container, [(o[0], o[1]) + ((G.prog_sx([o[3]]),) if o[0] == "set" else (G.prog_sx(o[3]),) if o[0] in ("append", "insert", "extend") else ())
+                                 for o in ops]]
         run.case(("mutation", psx, container, str(desc[2])))
         try:
             with time_limit(90):
@@ -676,6 +684,12 @@ def mutation_stream(run, drv, ask):
                     idx = o[2] if container == "dict" else o[1]
                     if o[0] == "del":
                         del seq[idx]
+                    elif o[0] == "append":
+                        seq.append(G.build_mods(o[3])[0])
+                    elif o[0] == "insert":
+                        seq.insert(o[1], G.build_mods(o[3])[0])
+                    elif o[0] == "extend":
+                        seq.extend(G.build_mods(o[3]))
                     else:
                         seq[idx] = G.build_mods([o[3]])[0]
                 impl_keys = [canon_keys(seq.in_keys), canon_keys(seq.out_keys)]
